@@ -19,11 +19,22 @@ neighbouring intervals over the same rows, other intervals - with edits of earli
 of a session is judged against the scan of the scaffold as it was indexed; a result must be a fresh object which
 shares its row list with no earlier result and not with the scaffold, editing one result must leave the others as
 they were returned, and the scaffold itself must keep its rows.
+
+And the statement speaks of every scaffold handed to an IndexedAssembly - also one that has been in an IndexedAssembly
+before.  Scaffold objects are working objects as well (add_row / append_scaffold is how every scaffold of the package
+is built; rows are inserted, dropped and swapped in place), and Assembly / new_from_assembly share them between
+assemblies.  So there are *re-indexing sessions*: ONE Scaffold object is indexed, edited, and indexed again in a fresh
+IndexedAssembly (2-5 generations; by the constructor, new_from_assembly and add_scaffold), and after every indexing the
+new assembly answers every query as the scan of the rows the scaffold had when it was handed to THAT assembly says.
+Assemblies of earlier generations are asked again as long as the scaffold has only grown since (queries up to the
+end it had at their indexing: for those the scaffold they indexed and the scaffold as it is now agree).
 """
 
 import itertools
 import random
+import types
 
+from tola.assembly.assembly import Assembly
 from tola.assembly.fragment import Fragment
 from tola.assembly.gap import Gap
 from tola.assembly.indexed_assembly import IndexedAssembly
@@ -271,10 +282,220 @@ def session_scripts(a, b, total, c, ops):
             yield [["q", *far, 1, []], ["q", a, b, strand, tags], ["e", 1, op], ["e", 0, op], ["q", *far, 1, []], ["again", 1], ["e", 2, op], ["q", a, b, strand, tags]]
 
 
+# --------------------------------------------------------------------------------------------------
+# re-indexing sessions: one Scaffold object indexed in several IndexedAssembly objects, edited in between
+# --------------------------------------------------------------------------------------------------
+
+INDEX_HOW = ("init", "from_assembly", "add_scaffold")
+# edits after which the rows the scaffold had before are still its first rows, unchanged
+GROWING = ("add_row", "append_scaffold")
+
+
+def make_row(kind, n, serial):
+    """row number `serial` made in a session (names distinct, contig coordinates unrelated to scaffold coordinates)"""
+    if kind == "G":
+        return Gap(n, "scaffold" if serial % 2 else "contig")
+    return Fragment(f"c{serial}", 10 * serial + 5, 10 * serial + 4 + n, (1, -1, 0)[serial % 3])
+
+
+def index_scaffold(scf, how, generation):
+    if how == "init":
+        return IndexedAssembly(f"asm{generation}", scaffolds=[scf])
+    if how == "from_assembly":
+        return IndexedAssembly.new_from_assembly(Assembly(f"asm{generation}", scaffolds=[scf]))
+    asm = IndexedAssembly(f"asm{generation}")
+    asm.add_scaffold(scf)
+    return asm
+
+
+def scan_queries(spans, limit=None):
+    """
+    the queries of one scan: every 1 <= a <= b <= total + 2 of a short scaffold, else every pair of (at most ~20, evenly
+    thinned) boundary points; limit: only queries ending at or before it
+    """
+    total = spans[-1][1]
+    if total <= 16:
+        pts = list(range(1, total + 3))
+    else:
+        pts = boundary_points(spans)
+        if len(pts) > 20:
+            step = -(-len(pts) // 17)
+            pts = sorted(set(pts[::step]) | set(pts[-3:]))
+    if limit is not None:
+        pts = [p for p in pts if p <= limit]
+    return itertools.combinations_with_replacement(pts, 2)
+
+
+def run_reindex(kinds, steps, col, inp):
+    """
+    one Scaffold object, built from `kinds`, and the steps
+      ["index", how]            hand it to a NEW IndexedAssembly (how: INDEX_HOW); the assemblies are numbered from 0
+      ["edit", "add_row", kind, n] / ["edit", "append_scaffold", [[kind, n], ...], gap length or None] /
+      ["edit", "insert", i, kind, n] / ["edit", "delete", i] / ["edit", "replace", i, kind, n] (rows[i] = another row) /
+      ["edit", "assign", [[kind, n], ...]] (rows = a new list)
+      ["scan", k]               every query (scan_queries) on assembly k, each judged against the scan of the rows the
+                                scaffold had when assembly k indexed it.  After growing edits only queries that end within
+                                that scaffold; after any other edit assembly k is not asked any more.
+    returns the number of lookups made
+    """
+    made = {}  # id of every row object made in the session -> (the object, kept alive; its kind; its length)
+
+    def row(kind, n):
+        r = make_row(kind, n, len(made))
+        made[id(r)] = (r, kind, n)
+        return r
+
+    scf = Scaffold("scf", [row(k, n) for k, n in kinds])
+    assemblies = []  # [IndexedAssembly, kinds at indexing, row objects at indexing, is_gap, spans, "fresh" | "grown" | "stale"]
+    lookups = 0
+    for n_step, st in enumerate(steps):
+        ctx = f"step {n_step + 1} of the re-indexing session {steps} on one Scaffold object (rows at first {[list(k) for k in kinds]}): "
+        if st[0] == "index":
+            g = len(assemblies)
+            # the scaffold as it is handed over: its row objects now, each with the kind and length it was made with
+            now = [made[id(r)][1:] for r in scf.rows]
+            try:
+                asm = index_scaffold(scf, st[1], g)
+            except Exception as e:  # noqa: BLE001
+                col.fail(f"{ctx}indexing the scaffold, rows now {[list(k) for k in now]}, raised {type(e).__name__}: {e} - no query on it can be answered", inp)
+                return lookups
+            spans = []
+            p = 0
+            for _, n in now:
+                spans.append((p + 1, p + n))
+                p += n
+            assemblies.append([asm, tuple(now), list(scf.rows), [k == "G" for k, _ in now], spans, "fresh"])
+        elif st[0] == "edit":
+            op = st[1]
+            if op == "add_row":
+                scf.add_row(row(st[2], st[3]))
+            elif op == "append_scaffold":
+                other = Scaffold("other", [row(k, n) for k, n in st[2]])
+                scf.append_scaffold(other, row("G", st[3]) if st[3] else None)
+            elif op == "insert":
+                scf.rows.insert(st[2], row(st[3], st[4]))
+            elif op == "delete":
+                del scf.rows[st[2]]
+            elif op == "replace":
+                scf.rows[st[2]] = row(st[3], st[4])
+            elif op == "assign":
+                scf.rows = [row(k, n) for k, n in st[2]]
+            for a in assemblies:
+                if op not in GROWING:
+                    a[5] = "stale"
+                elif a[5] == "fresh":
+                    a[5] = "grown"
+        else:
+            k = st[1]
+            asm, kinds_k, rows_k, is_gap, spans, state = assemblies[k]
+            if state == "stale":
+                continue
+            built = (types.SimpleNamespace(rows=rows_k), is_gap, spans, asm)
+            what = f"{ctx}assembly {k} (generation {k} of {len(assemblies)}, indexed when the scaffold had the rows {[list(k) for k in kinds_k]}): "
+            before = len(col.failures)
+            for a, b in scan_queries(spans, limit=spans[-1][1] if state == "grown" else None):
+                check(kinds_k, a, b, col, inp, built=built, ctx=what)
+                lookups += 1
+                if len(col.failures) > before:
+                    return lookups  # one failure per session: the later ones would repeat it
+    return lookups
+
+
+GROW_EDITS = [["add_row", k, n] for k, n in ROW_KINDS] + [
+    ["append_scaffold", [["F", 1]], None],
+    ["append_scaffold", [["F", 2]], 2],
+    ["append_scaffold", [["F", 3], ["G", 1], ["F", 1]], 1],
+    ["append_scaffold", [["G", 2], ["F", 2]], None],
+    ["append_scaffold", [["F", 1], ["G", 3]], 3],
+]
+
+
+def other_edits(n_rows):
+    """edits in place of a scaffold of n_rows rows: a row inserted in front / before the last, dropped, swapped for one of another length or kind, all rows anew"""
+    eds = [["insert", 0, "F", 2], ["insert", 0, "G", 1], ["insert", n_rows - 1, "F", 1], ["replace", 0, "F", 4], ["replace", n_rows - 1, "G", 2], ["replace", n_rows - 1, "F", 5]]
+    if n_rows > 1:
+        eds += [["delete", 0], ["delete", n_rows - 1]]
+    eds += [["assign", [["F", 2]] * (n_rows + 1)], ["assign", [["G", 1], ["F", 3], ["F", 1]][: max(1, n_rows)]]]
+    return eds
+
+
+def reindex_scripts(n_rows, c, tier):
+    """
+    the re-indexing sessions for one scaffold of n_rows rows (c: running number, rotates the way of indexing and the
+    edits).  Two generations around ONE edit - quick: three growing and two other edits, rotating; thorough: every edit -
+    and three generations around two edits (quick one chain, thorough four).
+    """
+    how = [INDEX_HOW[(c + j) % 3] for j in range(3)]
+    others = other_edits(n_rows)
+    if tier == "quick":
+        grow = [GROW_EDITS[(c + 4 * j) % len(GROW_EDITS)] for j in range(3)]
+        other = [others[(c + 3 * j) % len(others)] for j in range(2)]
+    else:
+        grow, other = GROW_EDITS, others
+    for ed in grow:
+        yield [["index", how[0]], ["scan", 0], ["edit", *ed], ["index", how[1]], ["scan", 1], ["scan", 0]]
+    for ed in other:
+        yield [["index", how[0]], ["scan", 0], ["edit", *ed], ["index", how[1]], ["scan", 1]]
+    for j in range(1 if tier == "quick" else 4):
+        e1 = GROW_EDITS[(c + 5 * j) % len(GROW_EDITS)]
+        e2 = GROW_EDITS[(c + 3 * j + 1) % len(GROW_EDITS)]
+        # the second assembly is made before the first lookup, and two edits lie between the second and the third
+        yield [["index", how[0]], ["edit", *e1], ["index", how[1]], ["scan", 1], ["scan", 0], ["edit", *e2], ["edit", *others[(c + j) % 6]], ["index", how[2]], ["scan", 2]]
+        # never looked up before it has grown; indexed twice in the same state
+        yield [["index", how[2]], ["edit", *e2], ["index", how[0]], ["index", how[1]], ["scan", 2], ["scan", 1], ["scan", 0], ["edit", *e1], ["index", how[0]], ["scan", 3], ["scan", 1]]
+
+
+def random_reindex(rng):
+    """a seeded session: a scaffold of 1-6 rows (lengths 1 .. 10**6), 2-5 generations, 1-3 edits between two of them, a scan of the new assembly and now and then of an older one"""
+    lengths = (1, 2, 3, 7, 100, 10**6)
+    now = [(rng.choice("GFF"), rng.choice(lengths)) for _ in range(rng.randint(1, 6))]
+    kinds = tuple(now)
+    steps = [["index", rng.choice(INDEX_HOW)]]
+    if rng.random() < 0.6:
+        steps.append(["scan", 0])
+    for g in range(1, rng.randint(2, 5)):
+        for _ in range(rng.randint(1, 3)):
+            roll = rng.random()
+            n = len(now)
+            k, ln = rng.choice("GFF"), rng.choice(lengths)
+            if roll < 0.35:
+                ed = ["add_row", k, ln]
+                now.append((k, ln))
+            elif roll < 0.6:
+                rows = [[rng.choice("GFF"), rng.choice(lengths)] for _ in range(rng.randint(1, 3))]
+                gap = rng.choice((None, 1, 200))
+                ed = ["append_scaffold", rows, gap]
+                now.extend(([("G", gap)] if gap else []) + [tuple(r) for r in rows])
+            elif roll < 0.72:
+                i = rng.randrange(n + 1)
+                ed = ["insert", i, k, ln]
+                now.insert(i, (k, ln))
+            elif roll < 0.82 and n > 1:
+                i = rng.randrange(n)
+                ed = ["delete", i]
+                del now[i]
+            elif roll < 0.94:
+                i = rng.randrange(n)
+                ed = ["replace", i, k, ln]
+                now[i] = (k, ln)
+            else:
+                rows = [[rng.choice("GFF"), rng.choice(lengths)] for _ in range(rng.randint(1, 5))]
+                ed = ["assign", rows]
+                now = [tuple(r) for r in rows]
+            steps.append(["edit", *ed])
+        steps.append(["index", rng.choice(INDEX_HOW)])
+        steps.append(["scan", g])
+        if rng.random() < 0.5:
+            steps.append(["scan", rng.randrange(g)])
+    return kinds, steps
+
+
 def replay(inp):
     col = Collector("replay")
     kinds = tuple(tuple(k) for k in inp["rows"])
-    if "session" in inp:
+    if "reindex" in inp:
+        run_reindex(kinds, inp["reindex"], col, inp)
+    elif "session" in inp:
         run_session(kinds, inp["session"], col, inp)
     else:
         check(kinds, inp["a"], inp["b"], col, inp)
